@@ -7,6 +7,7 @@ mod fmt_run;
 mod front;
 mod heap_run;
 mod lex_run;
+mod lir_dump;
 mod lsp_run;
 mod mir_dump;
 mod mir_types;
@@ -15,6 +16,7 @@ mod ops_table;
 mod opt_kernels;
 mod rewrite_run;
 mod rng;
+mod scope_ast;
 mod scope_run;
 mod server_run;
 mod srcsem;
@@ -40,6 +42,7 @@ fn main() {
     "front" => front::main(rest),
     "heap-run" => heap_run::main(rest),
     "lex-run" => lex_run::main(rest),
+    "lir-dump" => lir_dump::main(rest),
     "lsp-run" => lsp_run::main(rest),
     "mir-dump" => mir_dump::main(rest),
     "mir-types" => mir_types::main(rest),
@@ -47,6 +50,7 @@ fn main() {
     "ops-table" => ops_table::main(rest),
     "opt-kernels" => opt_kernels::main(rest),
     "rewrite-run" => rewrite_run::main(rest),
+    "scope-ast" => scope_ast::main(rest),
     "scope-run" => scope_run::main(rest),
     "server-run" => server_run::main(rest),
     "src-run" => srcsem::main(rest),
